@@ -397,7 +397,7 @@ class State:
             cid = ("s", p.cell)
             self.heap[cid] = v
             self.symcells[p.cell] = cid
-            self.eng.apply_type_invariant(self, p.roott, v)
+            self.eng.apply_type_invariant(self, p.roott, v, PtrV(p.t, p.cell, (), False, p.ref, p.roott))
         return cid
 
     def load(self, p):
